@@ -58,7 +58,7 @@ for f in outs:
             unknown_classes['unclassified'] = len(vs)
         replay = None
         if unknown_classes:
-            rdir = os.path.join(verif, 'replays', pid)
+            rdir = os.path.join(os.environ.get('VERIF_REPLAY_DIR') or os.path.join(verif, 'replays'), pid)
             os.makedirs(rdir, exist_ok=True)
             replay = os.path.join(rdir, 'bounded-%s.json' % rep['check'])
             json.dump({"property": pid, "check": rep['check'], "function": rep.get('function'), "scope": rep.get('scope'),
@@ -79,7 +79,7 @@ for f in outs:
     if not found and 'panic: test timed out' in text:
         # the code under test did not return within the harness budget (20x its normal running time): C08 "never hangs"
         # for every property whose stand-in this is
-        rdir = os.path.join(verif, 'replays', pid)
+        rdir = os.path.join(os.environ.get('VERIF_REPLAY_DIR') or os.path.join(verif, 'replays'), pid)
         os.makedirs(rdir, exist_ok=True)
         replay = os.path.join(rdir, 'bounded-timeout.json')
         json.dump({"property": pid, "note": "the bounded harness did not finish: a call into the code under test never returned (goroutine dump below)",
@@ -109,7 +109,7 @@ if not cov.get("samples"):
 ev["violations"] = violations
 if "explanation" not in cov:
     cov["explanation"] = "see per_obligation"
-json.dump(ev, open(os.path.join(verif, 'evidence', pid + '.json'), 'w'), indent=1)
+json.dump(ev, open(os.path.join(os.environ.get('VERIF_EVIDENCE_DIR') or os.path.join(verif, 'evidence'), pid + '.json'), 'w'), indent=1)
 for l in lines:
     print(l)
 if harness_error:
